@@ -145,6 +145,26 @@ IsnOK(e) ==
        /\ RecRule(e, e.rec, e.secret)
        /\ AddRule(e, e.add, e.secret)
 
+\* linearity of ISN shares: a combination k1 * (dealing 1) + k2 * (dealing 2 or 3) of the shares is a sharing of the
+\* combined secret: every holder owns exactly its pieces (also those that became the identity), with the combined values,
+\* qualified sets reconstruct the combined secret and the additive conversion sums to it
+IsnLinOK(e) ==
+  LET mus == [j \in 1..Len(e.musc) |-> Range(e.musc[j])] IN
+  /\ {mus[j] : j \in 1..Len(mus)} = MaximalUnqualified(e.pol)
+  /\ SumSeqQ(e.p1) = e.s1 /\ SumSeqQ(e.p2) = e.s2 /\ SumSeqQ(e.p3) = e.s2
+  /\ \A n \in 1..Len(e.combos) :
+       LET cb == e.combos[n]
+           snd == IF cb.snd = 2 THEN e.p2 ELSE e.p3
+           pc == [j \in 1..Len(mus) |-> Add(Mul(cb.k1, e.p1[j]), Mul(cb.k2, snd[j]))]
+           sec == Add(Mul(cb.k1, e.s1), Mul(cb.k2, e.s2))
+       IN /\ cb.panic = ""
+          /\ ShareIds(cb.shares) = Holders(e)
+          /\ \A k \in 1..Len(cb.shares) :
+               /\ Range(cb.shares[k].idx) = {j \in 1..Len(mus) : cb.shares[k].id \notin mus[j]}
+               /\ \A x \in 1..Len(cb.shares[k].idx) : cb.shares[k].v[x] = pc[cb.shares[k].idx[x]]
+          /\ RecRule(e, cb.rec, sec)
+          /\ AddRule(e, cb.add, sec)
+
 \* ---------------------------------------------------------------- Tassa (Birkhoff interpolation)
 BirkhoffOf(p, xs) == [i \in 1..Len(xs) |-> BirkhoffRow(xs[i], HierRank(p, xs[i]), Len(xs))]
 TassaSharesAre(e, shares, c) ==
@@ -188,6 +208,7 @@ Check(e) ==
     [] e.a = "shamirlin" -> ShamirLinOK(e)
     [] e.a = "additive" -> AdditiveOK(e)
     [] e.a = "isn" -> IsnOK(e)
+    [] e.a = "isnlin" -> IsnLinOK(e)
     [] e.a = "tassa" -> TassaOK(e)
     [] e.a = "tassalin" -> TassaLinOK(e)
     [] OTHER -> FALSE
